@@ -369,7 +369,10 @@ class ResolverMixin:  # pylint: disable=too-few-public-methods
             else:  # not tosubclass, i.e. restricted.
                 if inh_qname in new_quals:
                     if inh_qual.overridable or inh_qual.overridable is None:
-                        new_quals[inh_qname].propagated = True
+                        # The restricted qualifier of the superclass is not
+                        # inherited, so this is a local declaration
+                        self._init_qualifier(new_quals[inh_qname],
+                                             qualifier_store)
 
                     else:
                         raise CIMError(
